@@ -237,6 +237,7 @@ struct Hist {
     dead: bool,
     walk: bool,
     notified: bool, // a notification was delivered to the key keeper during the latest poll (by the history or by the harness)
+    last_doc: Option<usize>, // the document of the latest clean poll of this history
 }
 
 async fn start_hist(w: &mut World, walk: bool) -> Option<Hist> {
@@ -264,7 +265,7 @@ async fn start_hist_opt(w: &mut World, walk: bool, use_bpf: bool) -> Option<Hist
         return None;
     }
     let prev = kx_observe(&agent, bpf).await;
-    Some(Hist { host, agent, root, names: Vec::new(), initial_state: prev.state.clone(), prev, dead: false, walk, notified: false })
+    Some(Hist { host, agent, root, names: Vec::new(), initial_state: prev.state.clone(), prev, dead: false, walk, notified: false, last_doc: None })
 }
 
 async fn end_hist(mut h: Hist) {
@@ -410,7 +411,14 @@ async fn step(ctx: &mut KxCtx, w: &mut World, h: &mut Hist, l: &Letter, record_c
                     return false;
                 }
             }
-            let state_changed = after.state != before.state && !reset_by_notification;
+            // "the reported channel state changes": the agent's state getter changed, OR the HOST's report changed - this document is
+            // an enabled 2.0 document whose per-endpoint modes differ from those of the previous (enabled 2.0) document of the history
+            let host_report_changed = match h.last_doc {
+                Some(p) if w.docs[p].v2 && w.docs[p].enabled && doc.v2 && doc.enabled => says_intercepted(&w.docs[p]) != says_intercepted(&doc),
+                _ => false,
+            };
+            h.last_doc = Some(*d);
+            let state_changed = (after.state != before.state && !reset_by_notification) || host_report_changed;
             if let (Some(map), Some(map_before)) = (after.intercepted, before.intercepted) {
                 let says = says_intercepted(&doc);
                 for e in 0..3 {
